@@ -367,6 +367,25 @@ func (r *lrunner) runFault(cs LCase) (out Outcome, problem string) {
 	if faultExpected && ares.class != "WErr" {
 		note("AwaitConverged = %s after the stream failed (want the recorded error)", ares.class)
 	}
+	if faultExpected && ares.class == "WErr" {
+		// the two views of the recorded errors agree, side by side: Status().SendErrs / ReadErrs and the ClientErr of
+		// AwaitConverged (read while nothing is being recorded: the Status before and after the call are equal)
+		for try := 0; try < 25; try++ {
+			s1, _ := c.Status()
+			actx, acancel := context.WithTimeout(context.Background(), 200*time.Millisecond)
+			err := c.AwaitConverged(actx)
+			acancel()
+			s2, _ := c.Status()
+			var ce *client.ClientErr
+			if s1 != nil && s2 != nil && len(s1.SendErrs) == len(s2.SendErrs) && len(s1.ReadErrs) == len(s2.ReadErrs) && errors.As(err, &ce) {
+				if len(ce.Send) != len(s2.SendErrs) || len(ce.Recv) != len(s2.ReadErrs) {
+					note("Status() shows %d send and %d receive errors, the ClientErr of AwaitConverged %d and %d (fault on the %s side)", len(s2.SendErrs), len(s2.ReadErrs), len(ce.Send), len(ce.Recv), cs.Side)
+				}
+				break
+			}
+			time.Sleep(2 * time.Millisecond)
+		}
+	}
 	if !faultExpected && ares.class != "WOk" {
 		note("AwaitConverged = %s without any fault (all %d requests answered)", ares.class, n)
 	}
@@ -451,7 +470,7 @@ func (r *lrunner) furtherExchange(c *client.Client, done0 <-chan struct{}, cs LC
 	}
 	p := newProbe()
 	r.f.setProbe(p)
-	r.f.stub.setEcho(&echoCfg{failAfter: -1, fib: cs.fib()})
+	r.f.stub.setEcho(&echoCfg{failAfter: -1, fib: cs.fib(), staleOn: 1004, staleID: 1})
 	ctx, cancel := context.WithCancel(context.Background())
 	defer cancel()
 	if err := c.Connect(ctx); err != nil {
@@ -489,6 +508,20 @@ func (r *lrunner) furtherExchange(c *client.Client, done0 <-chan struct{}, cs LC
 	}
 	if st, _ := c.Status(); st != nil && (len(st.Results) != wantRes || len(st.PendingTransactions) != 0) {
 		note("reconnected client (options %q): %d results (want %d), %d pending %s after its handshake and 3 requests were answered", cs.Opts, len(st.Results), wantRes, len(st.PendingTransactions), pendingKinds(st.PendingTransactions))
+	}
+	// nothing of the connection before Reset is remembered: a result for operation 1 - which that connection may
+	// have completed, and which this one never sent - is a result for an unknown operation
+	if ok && timed(shortWatchdog, func() { c.Q(req(1004)) }) {
+		var serr error
+		sctx, scancel := context.WithTimeout(context.Background(), time.Second)
+		if !timed(watchdog, func() { serr = c.AwaitConverged(sctx) }) {
+			note("HANG: AwaitConverged on the reconnected client (stale result)")
+		}
+		scancel()
+		var ce *client.ClientErr
+		if !errors.As(serr, &ce) || len(ce.Recv) == 0 {
+			note("the reconnected client (options %q) accepted RIB_PROGRAMMED for operation 1, which only the connection before Reset had sent: AwaitConverged = %v", cs.Opts, serr)
+		}
 	}
 	if !timed(shortWatchdog, func() { c.Close() }) {
 		note("HANG: Close of the reconnected client")
